@@ -706,6 +706,19 @@ def final_spec(spec, ops):
                 cur = (Fraction(1), Fraction(0))
             if not isinstance(o, list):
                 continue
+            if o[0] in ("def", "add", "repl", "rem", "forkadd"):
+                if o[0] == "def":
+                    vs = [(frac(v[0]), frac(v[1])) for v in o[2][1:]]
+                    cur = (Fraction(1), Fraction(0))
+                elif o[0] in ("add", "forkadd"):
+                    vs = vs + [(frac(o[1]), frac(o[2]))]
+                elif o[0] == "repl":
+                    vs = vs[:-1] + [(frac(o[1]), frac(o[2]))]
+                else:
+                    d = [(frac(o[1]) - x) ** 2 + (frac(o[2]) - y) ** 2 for x, y in vs]
+                    i = d.index(min(d))
+                    vs = vs[:i] + vs[i + 1:]
+                continue
             ctr = poly_center_frac(vs)
             if o[0] == "move":
                 dx, dy = frac(o[1]) - ctr[0], frac(o[2]) - ctr[1]
@@ -734,6 +747,17 @@ def final_spec(spec, ops):
                 out[1:3] = [qx(tx), qx(ty)]
         elif o[0] == "rot" and k in ("rect", "ellipse"):
             out[-3:] = o[1:4]
+        elif o[0] == "def":
+            n = o[2]
+            if k == "rect":
+                xs, ys = sorted([frac(n[1]), frac(n[2])]), sorted([frac(n[3]), frac(n[4])])
+                out[1:5] = [qx(xs[0]), qx(xs[1]), qx(ys[0]), qx(ys[1])]
+            elif k == "ellipse":
+                out[1:5] = n[1:5]
+            elif k == "range":
+                out[2:4] = n[2:4]
+            else:
+                out = list(n)
     return out
 
 
@@ -1173,7 +1197,130 @@ class Ops(Family):
             pts = [(math.floor(x * 16) / 16, math.floor(y * 16) / 16) for x, y in pts]
         return [spec, ops, pts_sx(pts, (len(pts),)), qx(eps), qx(scale * Fraction(1, 10 ** 9))]
 
+    # ---- round 3: redefinition of the region OBJECT (reset / update_limits / set_range / add_point ...) ----
+    def gen_transform(self, rng, kind, rots=None):
+        if kind in ("rect", "ellipse", "poly") and rng.random() < 0.6:
+            if rots is not None:
+                c, s_ = rng.choice(rots)
+                return ["rot", qx(c), qx(s_), rng.choice([0, 0, 1, -1])]
+            return ["rot"] + pick_rot(rng, rng.choice(["q", "p", "p", "t"]))
+        return ["move", qx(dy(rng, -16, 16)), qx(dy(rng, -16, 16))]
+
+    def gen_define(self, rng, kind, mode, spec):
+        new = GENS[kind](rng, mode if kind != "poly" else "dy")
+        if kind == "range":
+            new[1] = spec[1]
+        if kind == "rect":
+            # non-degenerate, limits possibly given in the wrong order (update_limits sorts them)
+            if rng.random() < 0.3:
+                new[1], new[2] = new[2], new[1]
+            if rng.random() < 0.3:
+                new[3], new[4] = new[4], new[3]
+        if kind in ("rect", "ellipse"):
+            new[-3:] = [1, 0, 0]
+        return ["def", rng.choice([1, 1, 1, 0]) if kind != "poly" else 1, new]
+
+    def gen_edit(self, rng, spec, ops):
+        """add_point / replace_last_point / remove_point on the polygon the exact mirror predicts."""
+        cur = final_spec(spec, ops)
+        vs = [(frac(v[0]), frac(v[1])) for v in cur[1:]]
+        c = rng.random()
+        if c < 0.4 or len(vs) < 4:
+            return ["add", qx(dy(rng, -8, 8, 2) + vs[0][0].__floor__()), qx(dy(rng, -8, 8, 2) + vs[0][1].__floor__())]
+        if c < 0.65:
+            return ["repl", qx(dy(rng, -8, 8, 2) + vs[0][0].__floor__()), qx(dy(rng, -8, 8, 2) + vs[0][1].__floor__())]
+        # reference point = a current vertex that is clearly the nearest one (others differ by > size/64,
+        # or are exact duplicates, in which case the first one goes in python and in the model alike)
+        i = rng.randrange(len(vs))
+        size = roi_size(cur)
+        x, y = float(vs[i][0]), float(vs[i][1])
+        for j, v in enumerate(vs):
+            d2 = (v[0] - Fraction(x)) ** 2 + (v[1] - Fraction(y)) ** 2
+            if v != vs[i] and d2 < (size / 64) ** 2:
+                return ["add", qx(vs[0][0] + 1), qx(vs[0][1] - 2)]
+        if any(v == vs[i] for v in vs[:i] + vs[i + 1:]) and any(isinstance(o, list) and o[0] == "rot" for o in ops):
+            return ["add", qx(vs[0][0] + 1), qx(vs[0][1] - 2)]
+        return ["rem", qx(x), qx(y)]
+
+    def finish_redef(self, rng, spec, ops, mode):
+        """test points on the region the exact mirror of the prescribed semantics predicts (placement only)."""
+        fin = final_spec(spec, [o for o in ops if not (isinstance(o, list) and o[0] == "forkadd")])
+        sizes = [roi_size(spec), roi_size(fin)] + [roi_size(o[2]) for o in ops if isinstance(o, list) and o[0] == "def"]
+        scale = max(sizes)
+        eps = scale * Fraction(1, 10 ** 6)
+        fmode = "fl"
+        pts = sample_points(fin, rng, fmode, n_grid=5, n_bnd=14, n_rand=12, eps=max(float(eps), 1e-12), specials=False)
+        if fin[0] == "poly":
+            fc = poly_center_frac([(frac(v[0]), frac(v[1])) for v in fin[1:]])
+            _, _, rad = roi_extent(fin)
+            for _ in range(16):
+                pts.append((float(fc[0]) + rng.uniform(-1.2, 1.2) * rad, float(fc[1]) + rng.uniform(-1.2, 1.2) * rad))
+        # where the object used to be (before the redefinition)
+        cx, cy, rad = roi_extent(spec)
+        pts += [(cx, cy), (cx + 0.3 * rad, cy - 0.2 * rad)]
+        if mode == "dy":
+            pts = pts + [(math.floor(x * 16) / 16, math.floor(y * 16) / 16) for x, y in pts[:20]]
+        return [spec, ops, pts_sx(pts, (len(pts),)), qx(eps), qx(scale * Fraction(1, 10 ** 9))]
+
+    def redef_core(self, rng, tier):
+        """exhaustive short core: transform -> reset -> define -> transform -> contains, per class."""
+        rots = [(Fraction(0), Fraction(1)), (Fraction(3, 5), Fraction(4, 5)), (Fraction(-1), Fraction(0)),
+                (Fraction(5, 13), Fraction(-12, 13))]
+        firsts = {"rect": ["rect", -2, 6, 1, 4, 1, 0, 0], "ellipse": ["ellipse", 1, -1, 4, 2, 1, 0, 0],
+                  "poly": ["poly", [0, 0], [4, 0], [0, 3]], "circle": ["circle", 1, 2, 3], "annulus": ["annulus", 1, 2, 1, 3],
+                  "range": ["range", "x", -1, 3]}
+        seconds = {"rect": ["rect", 16, 10, 10, 12, 1, 0, 0], "ellipse": ["ellipse", 13, 11, 3, 1, 1, 0, 0],
+                   "poly": ["poly", [10, 10], [16, 10], [16, 12], [10, 12]], "circle": ["circle", 13, 11, 2],
+                   "annulus": ["annulus", 13, 11, 2, 4], "range": ["range", "x", 10, 16]}
+        for kind in ("poly", "rect", "ellipse", "circle", "annulus", "range"):
+            pre = [[["move", 5, -3]]]
+            post = [[], [["move", -7, 2]]]
+            if kind in ("rect", "ellipse", "poly"):
+                pre = [[["rot", qx(c), qx(s_), 0]] for c, s_ in rots] + pre + [[["move", 5, -3], ["rot", 0, 1, 1]]]
+                post = [[["rot", qx(c), qx(s_), 0]] for c, s_ in rots] + post + [[["rot", 0, 1, 0], ["move", 2, 2]]]
+            for a in pre:
+                for b in post:
+                    for via in ((1,) if kind == "poly" else (1, 0)):
+                        yield self.finish_redef(rng, firsts[kind], a + [["def", via, seconds[kind]]] + b, "dy")
+        # polygon vertex edits between two rotations (the angle bookkeeping survives an edit, not a reset)
+        tri = firsts["poly"]
+        for c, s_ in rots:
+            r1 = ["rot", qx(c), qx(s_), 0]
+            for ed in (["add", 5, 5], ["repl", -2, 4], ["rem", 0, 0]):
+                for c2, s2 in rots[:2]:
+                    base = tri if ed[0] != "rem" else ["poly", [0, 0], [6, 0], [6, 6], [3, 2], [0, 6]]
+                    if ed[0] == "rem":
+                        continue
+                    yield self.finish_redef(rng, base, [r1, ed, ["rot", qx(c2), qx(s2), 0]], "dy")
+            yield self.finish_redef(rng, ["poly", [0, 0], [6, 0], [6, 6], [3, 2], [0, 6]],
+                                    [["rem", 3, 2], r1, ["add", 3, 1], ["rot", 1, 0, 0]], "dy")
+
+    def redef_random(self, rng, kind, mode):
+        spec = GENS[kind](rng, mode)
+        if kind == "poly" and len(spec) < 4:
+            spec = ["poly", [0, 0], [4, 0], [0, 3]]
+        ops = []
+        for _ in range(rng.randint(0, 2)):
+            ops.append(self.gen_transform(rng, kind))
+        n_red = rng.choice([1, 1, 2])
+        for _ in range(n_red):
+            if kind == "poly" and rng.random() < 0.45:
+                for _ in range(rng.randint(1, 2)):
+                    ops.append(self.gen_edit(rng, spec, ops))
+            else:
+                ops.append(self.gen_define(rng, kind, mode, spec))
+                if kind == "poly" and rng.random() < 0.3:
+                    ops.append(self.gen_edit(rng, spec, ops))
+            for _ in range(rng.randint(0, 2)):
+                c = rng.random()
+                ops.append(self.gen_transform(rng, kind) if c < 0.8 else rng.choice(["copy", "rt", "fork"]))
+        return self.finish_redef(rng, spec, ops, mode)
+
     def cases(self, tier, rng):
+        yield from self.redef_core(rng, tier)
+        kinds3 = ("poly", "rect", "ellipse", "poly", "circle", "annulus", "range", "poly", "rect")
+        for i in range(450 if tier == "quick" else 5000):
+            yield self.redef_random(rng, kinds3[i % len(kinds3)], "dy" if rng.random() < 0.6 else "fl")
         # F16 / F17 regression shapes first: closed polygons moved twice, half-turn rotations
         sq = ["poly", [0, 0], [4, 0], [4, 4], [0, 4], [0, 0]]
         tri = ["poly", [0, 0], [2, 0], [0, 1]]
@@ -1244,6 +1391,21 @@ class Ops(Family):
                     if spec[0] in ("rect", "ellipse", "poly"):
                         roi.rotate_to(1.0)
                 roi = c
+            elif o[0] == "def":
+                bad = self.redefine(roi, spec[0], o[1], o[2])
+                if bad is not None:
+                    return bad
+            elif o[0] == "add":
+                roi.add_point(fl(o[1]), fl(o[2]))
+            elif o[0] == "repl":
+                roi.replace_last_point(fl(o[1]), fl(o[2]))
+            elif o[0] == "rem":
+                roi.remove_point(fl(o[1]), fl(o[2]))
+            elif o[0] == "forkadd":
+                c = roi.copy()
+                if spec[0] == "poly":
+                    roi.add_point(fl(o[1]), fl(o[2]))      # in-place edit of the ORIGINAL: the copy must not follow
+                roi = c
             elif o[0] == "move":
                 if isrange:
                     roi.move_to(fl(o[1]) if spec[1] == "x" else fl(o[2]))
@@ -1260,6 +1422,48 @@ class Ops(Family):
             c = (c, c)
         return [bits(res), [qx(float(c[0])), qx(float(c[1]))]]
 
+    @staticmethod
+    def redefine(roi, kind, via, new):
+        """reset() (when `via`) and define the region again through the class's own definers; returns an
+        atom if the reset object still claims to be defined / answers contains()."""
+        if via:
+            roi.reset()
+            if roi.defined():
+                return "defined-after-reset"
+            try:
+                roi.contains(np.array([0.0]), np.array([0.0]))
+                return "contains-after-reset"
+            except UndefinedROI:
+                pass
+        if kind == "rect":
+            # update_limits(xmin, ymin, xmax, ymax)
+            roi.update_limits(fl(new[1]), fl(new[3]), fl(new[2]), fl(new[4]))
+        elif kind == "circle":
+            roi.move_to(fl(new[1]), fl(new[2]))
+            roi.set_radius(fl(new[3]))
+        elif kind == "ellipse":
+            roi.move_to(fl(new[1]), fl(new[2]))
+            roi.radius_x = fl(new[3])
+            roi.radius_y = fl(new[4])
+        elif kind == "annulus":
+            roi.move_to(fl(new[1]), fl(new[2]))
+            roi.inner_radius = fl(new[3])
+            roi.outer_radius = fl(new[4])
+        elif kind == "range":
+            roi.set_range(fl(new[2]), fl(new[3]))
+        elif kind == "poly":
+            vs = new[1:]
+            for i, v in enumerate(vs):
+                if i % 3 == 2:
+                    # the way MplPolygonalROI scrubs: a provisional vertex, then replace_last_point
+                    roi.add_point(fl(v[0]) + 1.5, fl(v[1]) - 0.5)
+                    roi.replace_last_point(fl(v[0]), fl(v[1]))
+                else:
+                    roi.add_point(fl(v[0]), fl(v[1]))
+        if not roi.defined():
+            return "undefined-after-definition"
+        return None
+
     def nontrivial(self, case, po):
         return isinstance(po, list) and "1" in po[0] and "0" in po[0] and len(case[1]) > 0
 
@@ -1268,7 +1472,8 @@ class Ops(Family):
         kinds = sorted(set(o if isinstance(o, str) else o[0] for o in ops))
         closed = case[0][0] == "poly" and len(case[0]) > 2 and case[0][1] == case[0][-1]
         half = any(isinstance(o, list) and o[0] == "rot" and o[1] == -1 and o[2] == 0 for o in ops)
-        sig = {"class": case[0][0], "ops": "+".join(kinds), "closed-polygon": closed, "half-turn": half}
+        sig = {"class": case[0][0], "ops": "+".join(kinds), "closed-polygon": closed, "half-turn": half,
+               "copy-then-edit-original": case[0][0] == "poly" and "forkadd" in kinds}
         if case[0][0] == "poly" and len(case[0]) > 4:
             # a polygon whose signed area is exactly zero (bow-tie, collinear vertices) that is turned and moved afterwards
             vs = [(frac(v[0]), frac(v[1])) for v in case[0][1:]]
@@ -1580,6 +1785,10 @@ THEOREMS = [
     "C08.polygon_band_contains_boundary",
     "C08.ops_equivariant_spec",
     "C08.ops_equivariant",
+    "C08.ops_base_region",
+    "C08.redefine_conventions",
+    "C08.stale_theta_witness",
+    "C08.copy_shares_vertices_witness",
     "C08.copy_same",
     "C08.params_roundtrip",
     "C08.restore_same",
